@@ -615,3 +615,217 @@ def untuple_records(tree, ref_mod: dict) -> int:
     if n:
         ast.fix_missing_locations(tree)
     return n
+
+
+# --------------------------------------------------------------------------------------------------- unrolled loops
+def _bind_target(target, value) -> Optional[Dict[str, ast.AST]]:
+    if isinstance(target, ast.Name):
+        return {target.id: value}
+    if isinstance(target, ast.Tuple) and isinstance(value, ast.Tuple) and len(target.elts) == len(value.elts) and not any(isinstance(e, ast.Starred) for e in target.elts + value.elts):
+        out = {}
+        for t, v in zip(target.elts, value.elts):
+            m = _bind_target(t, v)
+            if m is None:
+                return None
+            out.update(m)
+        return out
+    return None
+
+
+def unroll_display_loops(fnode, ref: dict) -> int:
+    """`for T in (e1, .., en): BODY` over a short literal display, T made of names the reference does not have -> BODY[T:=e1]; ..; BODY[T:=en]"""
+    known = set(ref.get("names", []))
+    if not known:
+        return 0
+    n = 0
+    for owner, fld, blk in _blocks(fnode):
+        i = 0
+        while i < len(blk):
+            st = blk[i]
+            if isinstance(st, ast.For) and not st.orelse and isinstance(st.iter, (ast.Tuple, ast.List)) and 1 <= len(st.iter.elts) <= 6 and not any(isinstance(e, ast.Starred) for e in st.iter.elts):
+                tn = {x.id for x in ast.walk(st.target) if isinstance(x, ast.Name)}
+                body_mod = ast.Module(body=st.body, type_ignores=[])
+                lvl = [x for s2 in st.body for x in ast.walk(s2) if isinstance(x, (ast.Break, ast.Continue))]
+                inner_loops = [x for s2 in st.body for x in ast.walk(s2) if isinstance(x, (ast.For, ast.While))]
+                own_lvl = [x for x in lvl if not any(any(y is x for y in ast.walk(l)) for l in inner_loops)]
+                if tn and not (tn & known) and not _stores(body_mod, tn) and not own_lvl and all(_pure(e) for e in st.iter.elts) and len(ast.dump(body_mod)) < 4000 \
+                        and not any(_loads(s2, tn) for s2 in blk[i + 1:]):
+                    maps = [_bind_target(st.target, e) for e in st.iter.elts]
+                    if all(m is not None for m in maps):
+                        out = []
+                        for m in maps:
+                            sub = _Subst(m)
+                            out.extend(sub.visit(copy.deepcopy(s2)) for s2 in st.body)
+                        blk[i:i + 1] = out
+                        n += 1
+                        i += len(out)
+                        continue
+            i += 1
+    if n:
+        ast.fix_missing_locations(fnode)
+    return n
+
+
+# --------------------------------------------------------------------------------------------------- next() as a search
+def expand_next_search(fnode, ref: dict) -> int:
+    """`X = next((E for v in S if c), None)` ; `if X is not None: BODY [else: E2]` with X a new local read nowhere else
+    -> `for v in S: if c: BODY[X:=E]; break` [`else: E2`]"""
+    new = _new_locals(fnode, ref)
+    if not new:
+        return 0
+    n = 0
+    for owner, fld, blk in _blocks(fnode):
+        i = 0
+        while i + 1 < len(blk):
+            st, nx = blk[i], blk[i + 1]
+            call = st.value if isinstance(st, ast.Assign) and len(st.targets) == 1 and isinstance(st.targets[0], ast.Name) and st.targets[0].id in new else None
+            if isinstance(call, ast.Call) and isinstance(call.func, ast.Name) and call.func.id == "next" and len(call.args) == 2 and not call.keywords and _unparse(call.args[1]) == "None" \
+                    and isinstance(call.args[0], ast.GeneratorExp) and len(call.args[0].generators) == 1 and not call.args[0].generators[0].is_async and isinstance(nx, ast.If):
+                x = st.targets[0].id
+                g = call.args[0].generators[0]
+                elt = call.args[0].elt
+                t = _unparse(nx.test)
+                pos = t == f"{x} is not None"
+                neg = t == f"{x} is None"
+                vn = {y.id for y in ast.walk(g.target) if isinstance(y, ast.Name)}
+                # the element cannot be None: the filter dereferences the loop variable, which is the element
+                deref = isinstance(elt, ast.Name) and elt.id in vn and any(isinstance(y, ast.Attribute) and isinstance(y.value, ast.Name) and y.value.id == elt.id for c in g.ifs for y in ast.walk(c))
+                stores = [y for y in ast.walk(fnode) if isinstance(y, ast.Name) and y.id == x and isinstance(y.ctx, ast.Store)]
+                body, orelse = (nx.body, nx.orelse) if pos else (nx.orelse, nx.body)
+                uses_else = _loads(ast.Module(body=orelse, type_ignores=[]), {x})
+                uses_after = [y for s2 in blk[i + 2:] for y in _loads(s2, {x})]
+                all_uses = _loads(fnode, {x})
+                uses_body = _loads(ast.Module(body=body, type_ignores=[]), {x})
+                names_clash = any(isinstance(y, ast.Name) and y.id in vn for s2 in body for y in ast.walk(s2))
+                has_brk = any(isinstance(y, (ast.Break, ast.Continue)) for s2 in body for y in ast.walk(s2))
+                if (pos or neg) and deref and len(stores) == 1 and not uses_else and not uses_after and len(all_uses) == len(uses_body) + 1 and body and not names_clash and not has_brk \
+                        and _falls_through(body):
+                    sub = _Subst({x: elt})
+                    inner = [sub.visit(s2) for s2 in body] + [ast.Break()]
+                    for c in reversed(g.ifs):
+                        inner = [ast.If(test=c, body=inner, orelse=[])]
+                    loop = ast.copy_location(ast.For(target=g.target, iter=g.iter, body=inner, orelse=list(orelse)), st)
+                    ast.fix_missing_locations(loop)
+                    blk[i:i + 2] = [loop]
+                    n += 1
+                    continue
+            i += 1
+    return n
+
+
+# --------------------------------------------------------------------------------------------------- dict dispatch
+def expand_dict_dispatch(fnode, ref: dict) -> int:
+    """`h = {K1: f1, ..}.get(k)` ; `if h is not None: h(ARGS)` with h a new local -> `if k == K1: f1(ARGS) elif k == K2: f2(ARGS) ..`"""
+    new = _new_locals(fnode, ref)
+    if not new:
+        return 0
+    n = 0
+    for owner, fld, blk in _blocks(fnode):
+        i = 0
+        while i + 1 < len(blk):
+            st, nx = blk[i], blk[i + 1]
+            ok = isinstance(st, ast.Assign) and len(st.targets) == 1 and isinstance(st.targets[0], ast.Name) and st.targets[0].id in new and isinstance(st.value, ast.Call) \
+                and isinstance(st.value.func, ast.Attribute) and st.value.func.attr == "get" and isinstance(st.value.func.value, ast.Dict) and len(st.value.args) == 1 and not st.value.keywords
+            if ok:
+                h = st.targets[0].id
+                d = st.value.func.value
+                k = st.value.args[0]
+                ok = all(isinstance(kk, ast.Constant) for kk in d.keys) and all(isinstance(v, (ast.Name, ast.Attribute)) for v in d.values) and _pure(k) and d.keys \
+                    and isinstance(nx, ast.If) and _unparse(nx.test) == f"{h} is not None" and not nx.orelse and len(nx.body) == 1 \
+                    and isinstance(nx.body[0], (ast.Expr, ast.Assign, ast.Return)) and isinstance(nx.body[0].value, ast.Call) and _unparse(nx.body[0].value.func) == h \
+                    and len(_loads(fnode, {h})) == 2 and len(_stores(fnode, {h})) == 1
+            if ok:
+                chain = None
+                for kk, v in reversed(list(zip(d.keys, d.values))):
+                    s2 = copy.deepcopy(nx.body[0])
+                    s2.value.func = copy.deepcopy(v)
+                    test = ast.Compare(left=copy.deepcopy(k), ops=[ast.Eq()], comparators=[kk])
+                    chain = ast.If(test=test, body=[s2], orelse=[chain] if chain is not None else [])
+                ast.copy_location(chain, st)
+                ast.fix_missing_locations(chain)
+                blk[i:i + 2] = [chain]
+                n += 1
+                continue
+            i += 1
+    return n
+
+
+# --------------------------------------------------------------------------------------------------- str.join
+def expand_joins(fnode, ref: dict) -> int:
+    """`SEP.join([a, b, c])` -> `a + SEP + b + SEP + c` ; `L = []` .. `L.append(E)` .. `s = ''.join(L)` with L a new local -> `s = ''` .. `s += E`"""
+    new = _new_locals(fnode, ref)
+    n = 0
+
+    class J(ast.NodeTransformer):
+        def visit_Call(self, node):
+            nonlocal n
+            self.generic_visit(node)
+            if isinstance(node.func, ast.Attribute) and node.func.attr == "join" and isinstance(node.func.value, ast.Constant) and isinstance(node.func.value.value, str) \
+                    and len(node.args) == 1 and not node.keywords and isinstance(node.args[0], (ast.List, ast.Tuple)) and node.args[0].elts \
+                    and not any(isinstance(e, ast.Starred) for e in node.args[0].elts):
+                sep = node.func.value
+                out = node.args[0].elts[0]
+                for e in node.args[0].elts[1:]:
+                    if sep.value:
+                        out = ast.BinOp(left=out, op=ast.Add(), right=copy.deepcopy(sep))
+                    out = ast.BinOp(left=out, op=ast.Add(), right=e)
+                n += 1
+                return ast.copy_location(out, node)
+            return node
+    J().visit(fnode)
+    # accumulator form
+    for owner, fld, blk in _blocks(fnode):
+        for i, st in enumerate(blk):
+            if not (isinstance(st, ast.Assign) and len(st.targets) == 1 and isinstance(st.targets[0], ast.Name) and st.targets[0].id in new and isinstance(st.value, ast.List) and not st.value.elts):
+                continue
+            lname = st.targets[0].id
+            joins = [(k, s2) for k, s2 in enumerate(blk[i + 1:], i + 1) if isinstance(s2, ast.Assign) and len(s2.targets) == 1 and isinstance(s2.targets[0], ast.Name)
+                     and isinstance(s2.value, ast.Call) and isinstance(s2.value.func, ast.Attribute) and s2.value.func.attr == "join" and _unparse(s2.value.func.value) in ("''", '""')
+                     and len(s2.value.args) == 1 and _unparse(s2.value.args[0]) == lname]
+            if len(joins) != 1:
+                continue
+            k, js = joins[0]
+            sname = js.targets[0].id
+            loads = _loads(fnode, {lname})
+            apps = [c for s2 in blk[i + 1:k] for c in ast.walk(s2) if isinstance(c, ast.Expr) and isinstance(c.value, ast.Call) and _unparse(c.value.func) == f"{lname}.append" and len(c.value.args) == 1]
+            if len(loads) != len(apps) + 1 or len(_stores(fnode, {lname})) != 1 or any(_loads(s2, {sname}) or _stores(s2, {sname}) for s2 in blk[i:k]):
+                continue
+            for c in apps:
+                # Expr(append) -> AugAssign, in place
+                aug = ast.AugAssign(target=ast.Name(id=sname, ctx=ast.Store()), op=ast.Add(), value=c.value.args[0])
+                for o2, f2, b2 in _blocks(fnode):
+                    if c in b2:
+                        b2[b2.index(c)] = ast.copy_location(aug, c)
+            blk[i] = ast.copy_location(ast.Assign(targets=[ast.Name(id=sname, ctx=ast.Store())], value=ast.Constant(value="")), st)
+            del blk[k]
+            n += 1
+            break
+    if n:
+        ast.fix_missing_locations(fnode)
+    return n
+
+
+# --------------------------------------------------------------------------------------------------- extend
+def append_loops(tree) -> int:
+    """`for v in X: L.append(v)` and `L.extend(X)` (L a plain name) are `L += X` (unconditional: the repository's form for accumulating lists)"""
+    n = 0
+    for node in ast.walk(tree):
+        for fld in ("body", "orelse", "finalbody"):
+            blk = getattr(node, fld, None)
+            if not (isinstance(blk, list) and blk and isinstance(blk[0], ast.stmt)):
+                continue
+            for i, st in enumerate(blk):
+                if isinstance(st, ast.For) and not st.orelse and isinstance(st.target, ast.Name) and len(st.body) == 1 and isinstance(st.body[0], ast.Expr) and isinstance(st.body[0].value, ast.Call):
+                    c = st.body[0].value
+                    if isinstance(c.func, ast.Attribute) and c.func.attr == "append" and isinstance(c.func.value, ast.Name) and len(c.args) == 1 and not c.keywords \
+                            and isinstance(c.args[0], ast.Name) and c.args[0].id == st.target.id and c.func.value.id != st.target.id \
+                            and not any(isinstance(x, ast.Name) and x.id == c.func.value.id for x in ast.walk(st.iter)):
+                        blk[i] = ast.copy_location(ast.AugAssign(target=ast.Name(id=c.func.value.id, ctx=ast.Store()), op=ast.Add(), value=st.iter), st)
+                        ast.fix_missing_locations(blk[i])
+                        n += 1
+                elif isinstance(st, ast.Expr) and isinstance(st.value, ast.Call) and isinstance(st.value.func, ast.Attribute) and st.value.func.attr == "extend" \
+                        and isinstance(st.value.func.value, ast.Name) and len(st.value.args) == 1 and not st.value.keywords and not isinstance(st.value.args[0], ast.Starred):
+                    blk[i] = ast.copy_location(ast.AugAssign(target=ast.Name(id=st.value.func.value.id, ctx=ast.Store()), op=ast.Add(), value=st.value.args[0]), st)
+                    ast.fix_missing_locations(blk[i])
+                    n += 1
+    return n
